@@ -11,6 +11,8 @@
      round <st> <d|r> <64|128> <p> <s> <n> <v>       -> <impl> <spec>        (ok:<scale>:<unscaled>)
      intfn <abs|sign|ceil|floor|trunc|round> <a>     -> <impl> <spec> <same 0/1>
      decfn <op> <v> <s>                              -> <impl> <spec> <same 0/1>
+     deccmp <d|r> <opnd> <opnd>                      -> <impl> <spec> <impl8> <spec8>    (lt|eq|gt|null|err|panic; eight results
+        opnd = d:<64|128>:<p>:<s>:<v|N> | i:<s|u>:<w>:<v|N> | f:<bits|N>          < <= = <> >= > distinct not-distinct as 1/0/N, - if none)
      cmp <a> <b>                                     -> six 0/1 characters: a<b a<=b a=b a<>b a>=b a>b (definition only)
    outcome = ok:<v> | err | panic | fuel ;  fres = int:<n> | nz (negative zero) | bits:<b> | none *)
 let zs = zz_of_string
@@ -30,6 +32,19 @@ let p_fop = function "abs" -> FAbs | "sign" -> FSign | "ceil" -> FCeil | "floor"
 let b01 b = if b then "1" else "0"
 let fres = function FInt (nz, n) -> if nz then "nz" else "int:" ^ sz n | FBits b -> "bits:" ^ sz b
 let fres_opt = function None -> "none" | Some r -> fres r
+
+let p_optz = function "N" -> None | v -> Some (zs v)
+let p_cop s =
+  match split_on ':' s with
+  | ["d"; k; p; sc; v] -> OpDec (p_kind k, zs p, zs sc, p_optz v)
+  | ["i"; sg; w; v] -> OpInt (p_sgn sg, zs w, p_optz v)
+  | ["f"; b] -> OpF64 (p_optz b)
+  | _ -> failwith ("operand " ^ s)
+let out_cmp = function
+  | Ok (Some Lt) -> "lt" | Ok (Some Eq) -> "eq" | Ok (Some Gt) -> "gt" | Ok None -> "null" | Err -> "err" | Panic -> "panic"
+let res8 l r = function
+  | Ok c -> String.concat "" (List.map (function Some true -> "1" | Some false -> "0" | None -> "N") (cmp_results c (cop_null l) (cop_null r)))
+  | _ -> "-"
 
 let bin_line fn st m sg w a b =
   match fn with
@@ -75,6 +90,10 @@ let numfn () =
          let i = impl_dec_fn (p_fop op) (zs v) (zs s) and sp = spec_dec_fn (p_fop op) (zs v) (zs s) in
          let same = match i, sp with Some x, Some y -> fres_eqb x y | None, None -> true | _ -> false in
          Printf.printf "%s %s %s\n" (fres_opt i) (fres_opt sp) (b01 same)
+       | ["deccmp"; m; l; r] ->
+         let l = p_cop l and r = p_cop r in
+         let i = impl_cmp_mixed (p_mode m) l r and sp = spec_cmp_mixed l r in
+         Printf.printf "%s %s %s %s\n" (out_cmp i) (out_cmp sp) (res8 l r i) (res8 l r sp)
        | ["cmp"; a; b] ->
          print_endline (String.concat "" (List.map (fun op -> b01 (spec_cmp op (zs a) (zs b))) [CLt; CLe; CEq; CNe; CGe; CGt]))
        | [] -> print_endline ""
